@@ -397,12 +397,30 @@ func (r *resolver) applyDeviation(y *Module, d *Deviation) error {
 			hasType.setUnits("")
 		}
 		if d.Delete.HasDefault() {
-			if hasType.DefaultValue() == d.Delete.DefaultValue() {
-				return fmt.Errorf("cannot delete units '%s' != '%s' on %s",
-					d.Delete.Default(), hasType.DefaultValue(),
-					d.Ident())
+			// each named default must be there; a leaf-list keeps the defaults not named
+			var remaining []string
+			if v, valid := hasType.(HasDefaultValues); valid {
+				remaining = append(remaining, v.Default()...)
+			} else if hasType.HasDefault() {
+				remaining = []string{hasType.(HasDefaultValue).Default()}
+			}
+			for _, del := range d.Delete.Default() {
+				at := -1
+				for i, candidate := range remaining {
+					if candidate == del {
+						at = i
+						break
+					}
+				}
+				if at < 0 {
+					return fmt.Errorf("cannot delete default '%s', not a default of %s", del, d.Ident())
+				}
+				remaining = append(remaining[:at], remaining[at+1:]...)
 			}
 			hasType.clearDefault()
+			for _, keep := range remaining {
+				hasType.addDefault(keep)
+			}
 		}
 		for _, unique := range d.Delete.unique {
 			found := false
